@@ -387,6 +387,13 @@ def prove_cmp(facts: Facts, a: Any, op: ast.cmpop, b: Any) -> Verdict:
             if v1.status != HOLDS:
                 return v1
             return prove_cmp(facts, a, ast.GtE(), b)
+        elif isinstance(op, ast.NotEq):
+            integral = all(s_ in facts.ints for s_ in (a - b).syms())
+            if entails_ge0(facts, a - b, strict=True, integer=integral) or entails_ge0(facts, b - a, strict=True, integer=integral):
+                return Verdict(HOLDS)
+            if entails_ge0(facts, a - b) and entails_ge0(facts, b - a):
+                return Verdict(FAILS, f"{a!r} != {b!r} is false: the two are equal under the facts", {})
+            return Verdict(UNPROVEN, f"cannot prove {a!r} != {b!r}")
         else:
             return Verdict(UNDECIDED, f"comparison {type(op).__name__} not supported")
         integral = all(s in facts.ints for s in goal.syms())
@@ -417,12 +424,14 @@ class Env:
         self.int_attrs = int_attrs
         self.hooks: list[Callable[["Env", ast.Call], Any]] = []  # call models, tried in order
         self.sub_hooks: list[Callable[["Env", ast.Subscript], Any]] = []  # subscript models
+        self.count_assumption: Optional[Callable[[Lin], None]] = None  # called when a loop count is assumed >= 0
 
     def copy(self) -> "Env":
         e = Env(self.facts.copy(), self.int_attrs)
         e.vars = dict(self.vars)
         e.hooks = list(self.hooks)
         e.sub_hooks = list(self.sub_hooks)
+        e.count_assumption = self.count_assumption
         return e
 
     def symbol(self, path: str, integer: bool = True) -> Lin:
@@ -601,6 +610,35 @@ def evaluate(env: Env, e: ast.AST) -> Any:
         return Opaque("subscript")
     if isinstance(e, (ast.Compare, ast.BoolOp)):
         return truth(env, e)
+    if isinstance(e, (ast.ListComp, ast.GeneratorExp)) and len(e.generators) == 1 and not e.generators[0].ifs \
+            and not e.generators[0].is_async:
+        # [elt for x in range(n)] / [elt for x in <sequence>]: a sequence of the same length
+        g = e.generators[0]
+        n = None
+        sub = env.copy()
+        if isinstance(g.iter, ast.Call) and isinstance(g.iter.func, ast.Name) and g.iter.func.id == "range" \
+                and len(g.iter.args) == 1 and not g.iter.keywords:
+            n = evaluate(env, g.iter.args[0])
+            if isinstance(n, Lin) and not entails_ge0(f, n):
+                if env.count_assumption is not None:
+                    f.add_ge(n, Lin.c(0))
+                    env.count_assumption(n)
+                else:
+                    n = None   # range(negative) is empty: the length would be max(n, 0)
+            if isinstance(g.target, ast.Name) and n is not None:
+                i = f.fresh(g.target.id, exact=False)
+                f.add_ge(i, Lin.c(0))
+                f.add_le(i, n - Lin.c(1))
+                sub.vars[g.target.id] = i
+        else:
+            seq = evaluate(env, g.iter)
+            if isinstance(seq, SeqV) and isinstance(seq.length, Lin):
+                n = seq.length
+                if isinstance(g.target, ast.Name):
+                    sub.vars[g.target.id] = seq.elem
+        if isinstance(n, Lin):
+            return SeqV(n, evaluate(sub, e.elt), "list")
+        return Opaque("comprehension over an unrecognised iterable")
     if isinstance(e, ast.Call):
         for h in env.hooks:
             r = h(env, e)
@@ -613,6 +651,15 @@ def evaluate(env: Env, e: ast.AST) -> Any:
             if isinstance(v, SeqV):
                 return v.length
             p = attr_path(e.args[0])
+            if isinstance(v, Opaque) and isinstance(e.args[0], ast.Name) and e.args[0].id in env.vars:
+                # a local bound to a value the analysis could not follow: its length is *some* non-negative integer,
+                # not a universally quantified input (no witness may be claimed from it)
+                key = f"len({p})"
+                if key not in env.vars:
+                    s = f.fresh(key, exact=False)
+                    f.add_ge(s, Lin.c(0))
+                    env.vars[key] = s
+                return env.vars[key]
             if p is not None and f"len({p})" in env.vars:
                 return env.vars[f"len({p})"]
             if p is not None:
@@ -695,7 +742,8 @@ def truth(env: Env, e: ast.AST) -> B3:
                 pass
             else:
                 # maybe provably false?
-                neg = {ast.Lt: ast.GtE, ast.LtE: ast.Gt, ast.Gt: ast.LtE, ast.GtE: ast.Lt}.get(type(op))
+                neg = {ast.Lt: ast.GtE, ast.LtE: ast.Gt, ast.Gt: ast.LtE, ast.GtE: ast.Lt, ast.Eq: ast.NotEq,
+                       ast.NotEq: ast.Eq}.get(type(op))
                 if neg is not None and isinstance(left, Lin) and isinstance(right, Lin) \
                         and prove_cmp(env.facts, left, neg(), right).status == HOLDS:
                     return B3(False)
@@ -761,6 +809,7 @@ class Outcome:
     conds: list[str]
     kind: str = "return"  # 'return' | 'raise' | 'fallthrough' | 'unsupported'
     node: Any = None
+    guards: Any = None    # [(test, polarity, env before the branch)] for the undetermined branch conditions of the path
 
 
 def interp(body: list[ast.stmt], env: Env, max_paths: int = 128, for_hook=None) -> list[Outcome]:
@@ -797,22 +846,22 @@ def interp(body: list[ast.stmt], env: Env, max_paths: int = 128, for_hook=None) 
             for t_ in target.elts:
                 store(e, t_, Opaque("unpacked"))
 
-    def go(stmts: list[ast.stmt], e: Env, conds: list[str]):
+    def go(stmts: list[ast.stmt], e: Env, conds: list[str], gs: tuple = ()):
         if len(out) > max_paths:
             return
         if not stmts:
-            out.append(Outcome(e, None, conds, "fallthrough"))
+            out.append(Outcome(e, None, conds, "fallthrough", None, list(gs)))
             return
         st, rest = stmts[0], stmts[1:]
         from .frontend import norm as _n
         if isinstance(st, ast.Assign) and len(st.targets) == 1:
             for e2, c2, v in fork_value(e, conds, st.value):
                 store(e2, st.targets[0], v)
-                go(rest, e2, c2)
+                go(rest, e2, c2, gs)
         elif isinstance(st, ast.AnnAssign) and st.value is not None:
             for e2, c2, v in fork_value(e, conds, st.value):
                 store(e2, st.target, v)
-                go(rest, e2, c2)
+                go(rest, e2, c2, gs)
         elif isinstance(st, ast.AugAssign):
             cur = evaluate(e, st.target)
             v = evaluate(e, st.value)
@@ -820,38 +869,38 @@ def interp(body: list[ast.stmt], env: Env, max_paths: int = 128, for_hook=None) 
                 store(e, st.target, cur + v if isinstance(st.op, ast.Add) else cur - v)
             else:
                 store(e, st.target, Opaque("augassign"))
-            go(rest, e, conds)
+            go(rest, e, conds, gs)
         elif isinstance(st, ast.Return):
             if st.value is None:
-                out.append(Outcome(e, None, conds, "return", st))
+                out.append(Outcome(e, None, conds, "return", st, list(gs)))
             else:
                 for e2, c2, v in fork_value(e, conds, st.value):
-                    out.append(Outcome(e2, v, c2, "return", st))
+                    out.append(Outcome(e2, v, c2, "return", st, list(gs)))
         elif isinstance(st, ast.Raise):
-            out.append(Outcome(e, None, conds, "raise", st))
+            out.append(Outcome(e, None, conds, "raise", st, list(gs)))
         elif isinstance(st, ast.If):
             t = truth(e, st.test)
             if t.v is not False:
                 a = e.copy()
                 assume(a, st.test, True)
-                go(list(st.body) + rest, a, conds + [_n(st.test)[:40]])
+                go(list(st.body) + rest, a, conds + [_n(st.test)[:40]], gs + (((st.test, True, e),) if t.v is None else ()))
             if t.v is not True:
                 b = e.copy()
                 assume(b, st.test, False)
-                go(list(st.orelse) + rest, b, conds + ["not " + _n(st.test)[:40]])
+                go(list(st.orelse) + rest, b, conds + ["not " + _n(st.test)[:40]], gs + (((st.test, False, e),) if t.v is None else ()))
         elif isinstance(st, ast.Assert):
             assume(e, st.test, True)
-            go(rest, e, conds)
+            go(rest, e, conds, gs)
         elif isinstance(st, ast.Expr):
             if isinstance(st.value, ast.Call):
                 evaluate(e, st.value)  # for call-model side effects (precondition obligations)
-            go(rest, e, conds)
+            go(rest, e, conds, gs)
         elif isinstance(st, (ast.Pass, ast.Import, ast.ImportFrom, ast.FunctionDef, ast.Global, ast.Nonlocal)):
-            go(rest, e, conds)
+            go(rest, e, conds, gs)
         elif isinstance(st, (ast.For, ast.AsyncFor)) and for_hook is not None and for_hook(e, st):
-            go(rest, e, conds)
+            go(rest, e, conds, gs)
         else:
-            out.append(Outcome(e, None, conds, "unsupported", st))
+            out.append(Outcome(e, None, conds, "unsupported", st, list(gs)))
 
     go(list(body), env, [])
     return out
